@@ -38,9 +38,9 @@ type Violation struct {
 // Rec accumulates what one process observed.
 type Rec struct {
 	mu            sync.Mutex
-	Evaluations   int64            `json:"evaluations"`
-	DistinctExact int64            `json:"distinct_exact"`
-	Distinct      []uint64         `json:"distinct,omitempty"`
+	Evaluations   int64    `json:"evaluations"`
+	DistinctExact int64    `json:"distinct_exact"`
+	Distinct      []uint64 `json:"distinct,omitempty"`
 	distinct      map[uint64]struct{}
 	Counters      map[string]int64 `json:"counters"`
 	Samples       []any            `json:"samples"`
@@ -196,6 +196,27 @@ func (c *Ctx) Note(format string, a ...any) {
 	r.mu.Unlock()
 }
 
+// Counter returns the current value of a counter.
+func (c *Ctx) Counter(name string) int64 {
+	c.Rec.mu.Lock()
+	defer c.Rec.mu.Unlock()
+	return c.Rec.Counters[name]
+}
+
+// FoldCounters removes all counters with the given prefix and returns them (name -> value).
+func (c *Ctx) FoldCounters(prefix string) map[string]int64 {
+	c.Rec.mu.Lock()
+	defer c.Rec.mu.Unlock()
+	out := map[string]int64{}
+	for k, v := range c.Rec.Counters {
+		if strings.HasPrefix(k, prefix) {
+			out[k[len(prefix):]] = v
+			delete(c.Rec.Counters, k)
+		}
+	}
+	return out
+}
+
 // CaseID returns the id of the case being run ("part:index").
 func (c *Ctx) CaseID() string { return c.curCase }
 
@@ -293,6 +314,9 @@ type Spec struct {
 	Shards int
 	// InProcess runs the monitor in the parent only (it manages its own children).
 	InProcess bool
+	// Finish, when set, runs in the parent on the merged record (derived counters, coverage
+	// obligations that need the union over shards).
+	Finish func(c *Ctx)
 }
 
 func usage() {
@@ -555,6 +579,10 @@ func parent(spec Spec, tier string, seed uint64, verbose bool) int {
 		}
 	}
 
+	if spec.Finish != nil {
+		spec.Finish(&Ctx{ID: spec.ID, Tier: tier, Seed: seed, Shard: 0, NShards: 1, Rec: merged, Verbose: verbose})
+	}
+
 	// classify violations against the committed known-findings list (read-only)
 	findings := loadFindings()
 	type knownHit struct {
@@ -654,11 +682,13 @@ func parent(spec Spec, tier string, seed uint64, verbose bool) int {
 		fmt.Printf("  class=%s case=%s: %s\n", v.Class, v.Case, v.Msg)
 		rc = 1
 	}
-	if rc == 0 && len(inconclusive) > 0 {
+	if len(inconclusive) > 0 {
 		for _, s := range inconclusive {
 			fmt.Printf("INCONCLUSIVE property=%s %s\n", spec.ID, s)
 		}
-		rc = 2
+		if rc == 0 {
+			rc = 2
+		}
 	}
 	fmt.Printf("%s tier=%s seed=%d: evaluations=%d distinct=%d violations=%d (all observations %d) known=%d wall=%.1fs\n",
 		spec.ID, tier, seed, merged.Evaluations, distinct, len(fresh), merged.ViolationsAll, len(known), wall)
